@@ -29,6 +29,9 @@ func Scenarios(thorough bool) map[string]*Scenario {
 		Steps: []StepSpec{{Replicas: "1"}, {Replicas: "2"}}}
 	m["Q21"] = &Scenario{ID: "Q21", Kind: "CloneSet", Style: "partition", Replicas: 2, Traffic: "gateway", TRCR: true, Grace: 1,
 		Steps: []StepSpec{{Replicas: "1"}, {Replicas: "2"}}}
+	// Gateway API with three weight steps (a later weight step must really be written)
+	m["Q03d"] = &Scenario{ID: "Q03d", Kind: "CloneSet", Style: "partition", Replicas: 3, Traffic: "gateway", Grace: 1,
+		Steps: []StepSpec{{Replicas: "1", Traffic: "20%"}, {Replicas: "2", Traffic: "50%"}, {Replicas: "3", Traffic: "80%"}}}
 	// custom (Lua) provider: Istio VirtualService, configured in the Rollout (Q30) or through a TrafficRouting CR (Q22)
 	m["Q30"] = &Scenario{ID: "Q30", Kind: "CloneSet", Style: "partition", Replicas: 2, Traffic: "custom", Grace: 1,
 		Steps: []StepSpec{{Replicas: "1", Traffic: "20%"}, {Replicas: "100%"}}}
@@ -63,8 +66,15 @@ func Scenarios(thorough bool) map[string]*Scenario {
 	m["Q05r"] = &Scenario{ID: "Q05r", Kind: "Deployment", Style: "canary", Replicas: 2, Recreate: true,
 		Steps: []StepSpec{{Replicas: "1"}, {Replicas: "2"}}}
 	// Deployment partition style (the repository's advanced Deployment controller drives the ReplicaSets)
-	m["Q07"] = &Scenario{ID: "Q07", Kind: "Deployment", Style: "partition", Replicas: 3,
+	m["Q07"] = &Scenario{ID: "Q07", Kind: "Deployment", Style: "partition", Replicas: 3, MaxSurge: "20%", MaxUnavailable: "1",
 		Steps: []StepSpec{{Replicas: "34%"}, {Replicas: "100%"}}}
+	// canary-style Deployment whose canary pods get the label track=canary patched on (patchPodTemplateMetadata) while
+	// the user's pods and the stable Service's selector say track=stable
+	m["Q05p"] = &Scenario{ID: "Q05p", Kind: "Deployment", Style: "canary", Replicas: 2, Traffic: "ingress", Grace: 1, PatchPodMeta: true,
+		Steps: []StepSpec{{Replicas: "1", Traffic: "20%"}, {Replicas: "2", Traffic: "50%"}}}
+	// gracePeriodSeconds 0 (allowed: "no wait") on a canary-style Deployment with traffic on the first step
+	m["Q05g"] = &Scenario{ID: "Q05g", Kind: "Deployment", Style: "canary", Replicas: 2, Traffic: "ingress", Grace: 0,
+		Steps: []StepSpec{{Replicas: "1", Traffic: "20%"}, {Replicas: "2", Traffic: "50%"}}}
 	// Deployment partition style, the user's strategy is Recreate
 	m["Q07r"] = &Scenario{ID: "Q07r", Kind: "Deployment", Style: "partition", Replicas: 2, Recreate: true,
 		Steps: []StepSpec{{Replicas: "1"}, {Replicas: "100%"}}}
@@ -137,19 +147,19 @@ func plans0(thorough bool) map[string]PropertyPlan {
 			FreeQueues: true, StateCap: capQ, Monitors: func(w *World, sc *Scenario) []Monitor { return []Monitor{StepMonitor{}} }},
 		"C11": {Scenarios: []string{"Q01", "Q01b", "Q01r", "Q05", "Q05r", "Q07", "Q08", "Q10"}, Actions: []string{"scaleUp", "scaleDown", "editPlanMore", "degrade", "jump(1)"}, MaxUser: u,
 			FreeQueues: true, StateCap: capQ, Monitors: func(w *World, sc *Scenario) []Monitor { return []Monitor{BatchStatusMonitor{}} }},
-		"C03": {Scenarios: []string{"Q02", "Q02d", "Q03", "Q05", "Q08", "Q30"}, Actions: []string{"jump(2)", "jump(3)", "jump(1)", "editPlanMore", "scaleUp"}, MaxUser: u,
+		"C03": {Scenarios: []string{"Q02", "Q02d", "Q03d", "Q05", "Q08", "Q30"}, Actions: []string{"jump(2)", "jump(3)", "jump(1)", "editPlanMore", "scaleUp"}, MaxUser: u,
 			FreeQueues: true, StateCap: capQ, Monitors: func(w *World, sc *Scenario) []Monitor { return []Monitor{TrafficOrderMonitor{}} }},
-		"C04": {Scenarios: []string{"Q02", "Q02c", "Q02s", "Q03", "Q05", "Q08", "Q30"}, Actions: []string{"rollback", "release3", "disable", "deleteRollout", "jump(2)"}, MaxUser: u, Disturbances: []string{"crash"}, MaxDisturb: 1,
+		"C04": {Scenarios: []string{"Q02", "Q02c", "Q02s", "Q03", "Q05", "Q05p", "Q08", "Q30"}, Actions: []string{"rollback", "release3", "disable", "deleteRollout", "jump(2)"}, MaxUser: u, Disturbances: []string{"crash"}, MaxDisturb: 1,
 			FreeQueues: true, StateCap: capQ, Monitors: func(w *World, sc *Scenario) []Monitor { return []Monitor{VoidMonitor{}} }},
 		"C10": {Scenarios: []string{"Q02", "Q05", "Q08"}, Actions: []string{"rollback", "release3"}, MaxUser: 1, Disturbances: []string{"crash", "midcrash"}, MaxDisturb: 1,
 			FreeQueues: true, StateCap: capQ, Monitors: func(w *World, sc *Scenario) []Monitor { return []Monitor{RollbackOrderMonitor{}} }},
-		"C05": {Scenarios: []string{"Q02", "Q01b", "Q03", "Q05", "Q07", "Q07r", "Q08", "Q10", "Q30"}, Actions: []string{"rollback", "disable", "deleteRollout", "editPlanMore", "deleteCanary"}, MaxUser: u,
+		"C05": {Scenarios: []string{"Q02", "Q01b", "Q03", "Q05", "Q07", "Q07r", "Q08", "Q10", "Q30"}, Actions: []string{"rollback", "release3", "disable", "deleteRollout", "editPlanMore", "deleteCanary"}, MaxUser: u,
 			FreeQueues: true, StateCap: capQ, Monitors: func(w *World, sc *Scenario) []Monitor { return []Monitor{&ExitMonitor{Base: CaptureBaseline(w, sc)}} }},
 		"C18": {Scenarios: []string{"Q02", "Q01b", "Q05", "Q20", "Q22", "Q30"}, Actions: []string{"deleteRollout", "deleteWorkload", "deleteTR"}, MaxUser: 2, Disturbances: []string{"crash", "midcrash", "error"}, MaxDisturb: 1,
 			FreeQueues: true, StateCap: capQ, Monitors: func(w *World, sc *Scenario) []Monitor {
 				return []Monitor{FinalizerMonitor{Base: CaptureBaseline(w, sc)}}
 			}},
-		"C07": {Scenarios: []string{"Q01", "Q01b", "Q01c", "Q01r", "Q02", "Q03", "Q05", "Q05r", "Q07", "Q07m", "Q08", "Q10"}, Actions: nil, MaxUser: 0,
+		"C07": {Scenarios: []string{"Q01", "Q01b", "Q01c", "Q01r", "Q02", "Q03", "Q05", "Q05g", "Q05r", "Q07", "Q07m", "Q08", "Q10"}, Actions: nil, MaxUser: 0,
 			FreeQueues: false, Liveness: true, StateCap: capQ, Monitors: func(w *World, sc *Scenario) []Monitor { return []Monitor{PanicMonitor{}} }},
 		"C06": {Scenarios: c06Scenarios, Actions: nil, MaxUser: 0, Disturbances: []string{"crash", "midcrash", "error", "conflict"}, MaxDisturb: 1,
 			FreeQueues: true, StateCap: capQ, Relabel: true, LiveScenarios: []string{"Q01b"},
